@@ -220,6 +220,7 @@ Proof.
   - rewrite RStatusCode_unfold, rstatus_RDel. exact H.
   - rewrite RStatusCode_unfold, rstatus_SCL. exact H.
   - reflexivity.
+  - reflexivity.
 Qed.
 Lemma status_run prog : forall R w, RStatusCode (r_hd R) = w_status w ->
   RStatusCode (r_hd (hrun R prog)) = w_status (fold_left want_step prog w).
@@ -269,6 +270,7 @@ Proof.
     + unfold body_rel, SetBodyStream. cbn [r_stream r_raw r_body w_body]. split; [now exists size|]. split; reflexivity.
     + exact Hb.
     + unfold body_rel, CtxError. cbn [r_stream r_raw r_body w_body]. reflexivity.
+    + unfold body_rel, emptyResponse. cbn [r_stream r_raw r_body w_body want0]. reflexivity.
 Qed.
 
 Lemma final_body_finish c q R : final_body (fst (srv_finish c q R)) = final_body R.
